@@ -22,7 +22,7 @@
      Good   otherwise. *)
 From Coq Require Import List Bool.
 Import ListNotations.
-From DDP Require Import Gen.Operators Lower.TcTable.
+From DDP Require Import Gen.OperatorEnum Lower.TcTable.
 
 (* ddpIrType identities: the five primitives, ddpstring, a Kombination, ddpany, and the list of each *)
 Inductive scal : Set := I64 | F64 | I8 | I1 | I32 | Str | Struct | Any.
